@@ -8,12 +8,19 @@
 (* independent decimal increment that the two's-complement reading         *)
 (* (Val) really is "the next integer", wrapping only at max -> min.        *)
 (* Every visited state is exported as a test vector for the real code.     *)
+(*                                                                         *)
+(* "Anything outside the range": every value is also offered scaled by the *)
+(* powers of ten 10^e, e \in Exps -- from just beyond the range of the base *)
+(* up to and beyond the range of a double (numbers, and numeric text, that *)
+(* only an infinity stands for).  InRange decides, by comparing decimal    *)
+(* digit sequences, which of them are outside.                             *)
 (***************************************************************************)
 EXTENDS Naturals, Sequences, TLC, Json
 
 CONSTANTS Bases,      \* subset of {2, 8, 16}
           Seeds,      \* [Bases -> set of 10-digit strings]
-          Steps       \* [Bases -> Nat] odometer steps from each seed
+          Steps,      \* [Bases -> Nat] odometer steps from each seed
+          Exps        \* set of decimal exponents e >= 1: magnitudes 10^e
 
 VARIABLES b, s, k
 vars == <<b, s, k>>
@@ -74,6 +81,41 @@ MaxPos(base) == [i \in 1..Width |-> IF i = 1 THEN base \div 2 - 1 ELSE base - 1]
 MinNeg(base) == [i \in 1..Width |-> IF i = 1 THEN base \div 2 ELSE 0]
 
 --------------------------------------------------------------------------
+(* the range of a base, and the numbers outside it at every magnitude *)
+
+\* x < y for decimal digit sequences without leading zeros
+RECURSIVE LexLess(_, _, _)
+LexLess(x, y, i) == IF i > Len(x) THEN FALSE
+                    ELSE IF x[i] # y[i] THEN x[i] < y[i]
+                    ELSE LexLess(x, y, i + 1)
+DecLess(x, y) == Len(x) < Len(y) \/ (Len(x) = Len(y) /\ LexLess(x, y, 1))
+
+\* v = <<neg, magnitude>> is a number of the 10-digit range of the base:
+\* -512..511, -2^29..2^29-1, -2^39..2^39-1
+InRange(base, v) ==
+  IF v[1] THEN ~DecLess(Val(base, MinNeg(base))[2], v[2])
+          ELSE ~DecLess(Val(base, MaxPos(base))[2], v[2])
+
+\* magnitude * 10^e
+Scale(mag, e) == IF mag = <<0>> THEN mag ELSE mag \o [i \in 1..e |-> 0]
+Scaled(v, e) == <<v[1], Scale(v[2], e)>>
+
+(* A number of 310 or more digits is at least 10^309, beyond the largest   *)
+(* double (1.797..E308): as a double it is an infinity, as numeric text it *)
+(* is text that no number stands for.  It is outside every range like any  *)
+(* other number; DEC2x and x2DEC owe it an error value, not an exception.  *)
+BeyondDouble(mag) == Len(mag) >= 310
+
+\* x2DEC and x2y given a number read its decimal numeral as the digit
+\* string; a numeral of more than 10 digits is outside ("up to 10 characters")
+NumeralTooLong(digs, e) == Len(Scale(Strip(digs), e)) > Width
+
+(* places: 1..10 are in the quantifier.  A places beyond 2^63 - 1 >= 10^18 *)
+(* (no text is that long) can only be answered by an error value; what     *)
+(* 11 <= places < 10^19 gives is not judged.                               *)
+PlacesFar == {e \in Exps : e >= 19}
+
+--------------------------------------------------------------------------
 (* regrouping of bits: a binary string sign-extended to 30 / 40 bits and   *)
 (* cut into 3- or 4-bit groups is the same number in base 8 / 16           *)
 
@@ -128,6 +170,21 @@ RegroupAgrees ==
 CanonSame == ~IsNeg(b, s) =>
   Unsigned(b, Canon(b, s)) = Unsigned(b, s)
 
+\* every value met is inside the range of its base; scaled by 10^e it
+\* grows; once it has more digits than the bounds of the base it is outside,
+\* and a non-negative value read in a smaller base stays inside that range
+\* exactly when it is below its upper bound
+EveryValueInRange == InRange(b, Val(b, s))
+ScaledOutside ==
+  LET v == Val(b, s) IN
+  \A e \in Exps :
+     /\ e >= 1
+     /\ v[2] # <<0>> =>
+          /\ DecLess(v[2], Scale(v[2], e))
+          /\ Len(Scale(v[2], e)) > Len(Val(b, MinNeg(b))[2]) => ~InRange(b, Scaled(v, e))
+          /\ ~InRange(b, Scaled(v, e)) => \A f \in Exps : f > e => ~InRange(b, Scaled(v, f))
+     /\ v[2] = <<0>> => InRange(b, Scaled(v, e))
+
 \* extremes
 Extremes ==
   /\ s = MaxPos(b) => Val(b, s) = <<FALSE,
@@ -147,5 +204,13 @@ Export ==
                  mag   |-> Val(b, s)[2],
                  canon |-> Canon(b, s),
                  oct   |-> IF b = 2 THEN Canon(8, Regroup(s, 3)) ELSE <<>>,
-                 hex   |-> IF b = 2 THEN Canon(16, Regroup(s, 4)) ELSE <<>>]))
+                 hex   |-> IF b = 2 THEN Canon(16, Regroup(s, 4)) ELSE <<>>,
+                 \* the exponents e for which value * 10^e is outside the range,
+                 \* for which it is beyond the doubles, for which the canonical
+                 \* digit string read as a decimal numeral, times 10^e, has more
+                 \* than 10 digits, and for which 10^e is a places beyond any text
+                 out   |-> {e \in Exps : ~InRange(b, Scaled(Val(b, s), e))},
+                 inf   |-> {e \in Exps : BeyondDouble(Scale(Val(b, s)[2], e))},
+                 long  |-> {e \in Exps : NumeralTooLong(s, e)},
+                 pfar  |-> PlacesFar]))
 =============================================================================
